@@ -251,6 +251,17 @@ func checkParsePointerAssertions(c *Ctx, ev *tmpl.Evaluator, gen *packages.Packa
 				c.Ok(rule, key, l.Tree.PosStr(oc.Pos), "dead arm: IsNullable is never set on response headers or their items (MakeHeader, MakeHeaderItem, simpleResolvedType)")
 				continue
 			}
+			// a value-type assertion is sound after the pointer has been unwrapped: `if p, ok := val.(*T); ok { val = *p }` just before
+			if oc.Match[2] != "*" {
+				before := l.Text[:oc.Start]
+				if i := strings.LastIndex(before, "formats.Parse("); i >= 0 {
+					before = before[i:]
+				}
+				if regexp.MustCompile(`if (\w+), \w+ := `+regexp.QuoteMeta(oc.Match[1])+`\.\(\*[^)]+\); \w+ \{[^{}]*`+regexp.QuoteMeta(oc.Match[1])+` = \*(\w+)\s*\}`).MatchString(before) {
+					c.Ok(rule, key, l.Tree.PosStr(oc.Pos), "value assertion after the pointer Parse returned has been dereferenced")
+					continue
+				}
+			}
 			c.Check(oc.Match[2] == "*" && oc.Match[1] != "(&val)", rule, key, l.Tree.PosStr(oc.Pos), "asserts *T",
 				fmt.Sprintf("`%s` asserts the value type, but strfmt's Parse returns a pointer (reflect.New(T).Interface()): the generated code panics on the first value it parses", strings.TrimSpace(l.Text[oc.Start:oc.End])))
 		}
